@@ -280,6 +280,19 @@ func runChain(c *ChainCase) (interface{}, error) {
 			allRev[k] = sigOp(c, i, j)
 		}
 		ho["rev_dup"] = dup
+		// the identifiers are independent values: a caller building keys with append(id, suffix...) changes neither the
+		// other identifiers of the returned set nor what the token reports next time (stable)
+		for j := range revs {
+			_ = append(revs[j], ':', 'r', 'e', 'v', 'o', 'k', 'e', 'd')
+		}
+		again := t.RevocationIds()
+		indep := len(again) == len(wb.all())
+		for j, sb := range wb.all() {
+			if j < len(revs) && !bytes.Equal(revs[j][:len(sb.Sig)], sb.Sig) || j < len(again) && !bytes.Equal(again[j], sb.Sig) {
+				indep = false
+			}
+		}
+		ho["rev_independent"] = indep
 		// sealed tokens can be neither extended nor sealed again (before and after reload)
 		if c.Tokens[i].Pf.T == "fin" {
 			bb := t.CreateBlock()
